@@ -187,7 +187,7 @@ def run(ctx):
             if k % 3 == 0 or k % 4 == 3:
                 # an interchange acknowledgement segment in every interchange, after the ISA or after the last group: a segment of ISA_LOOP
                 # that belongs to no group
-                where = 'before-iea' if k % 6 == 0 else 'after-isa'
+                where = 'before-iea' if k % 6 == 0 else ('between-groups' if k % 12 == 9 else 'after-isa')
                 doc = gen_doc.add_ta1(doc, where)
                 ctx.count('docs:with-TA1:' + where)
             text = doc.text()
